@@ -166,6 +166,7 @@ def run_c15(ctx):
     nops = t.int_between(1, 6, "nops")
     ncrops = 0
     for opi in range(nops):
+        t.mark()
         op = t.weighted([("sample_combos", 4), ("crop", 3), ("new_session", 2)], "op")
         if op == "new_session":
             ctx.t("new_session")
